@@ -95,7 +95,11 @@ func validRequest(x acc.Req, e *acc.Env, now int64) bool {
 		v, err := strconv.ParseInt(*x.Exp, 10, 64)
 		return err == nil && v >= now
 	}
-	switch x.Route {
+	route := x.Route
+	if x.Canon != "" {
+		route = x.Canon // a non-canonical spelling is held to the predicate of the endpoint it reaches
+	}
+	switch route {
 	case "session":
 		c := b.Classify().Claims
 		return b.Good(now, e.Cfg.Host) && c.Topic == x.ID && x.ID != "" && (c.Booking != "" || e.Cfg.AE)
@@ -220,6 +224,7 @@ func main() {
 
 func work(a lib.Args) {
 	res := lib.NewResult("C11", a.Seed, a.Tier)
+	res.ShardSize = 80 // histories are long: smaller shards spread over the Coq workers
 	rng := lib.NewRng(a.Seed)
 	envs := map[bool]*acc.Env{false: acc.StartMockAPI(false), true: acc.StartMockAPI(true)}
 
@@ -390,6 +395,47 @@ func work(a lib.Args) {
 		}
 	}
 
+	if a.Replay == "" {
+		// (11) the request-path dimension, over the raw connection (a client library would clean these): every
+		// endpoint x non-canonical spellings (those the router resolves, and near misses) x {the right token, a token
+		// of the other kind, a look-alike scope / other topic, no token}
+		for _, rt := range routes {
+			for _, sp := range acc.PathSpellings() {
+				if sp.Tail && rt == "session" {
+					continue
+				}
+				r := rng.Fork()
+				e := envs[r.Bool()]
+				now := int64(1600000000 + r.Intn(200000000))
+				kinds := []int{r.Intn(4)}
+				if sp.Resolves {
+					kinds = append(kinds, (kinds[0]+1+r.Intn(3))%4)
+				}
+				for _, k := range kinds {
+					x := baseFor(rt, e, now, n)
+					switch k {
+					case 1: // a token of the other kind
+						if rt == "session" {
+							x.Auth = adminBearer(e, now)
+						} else {
+							x.Auth = acc.SessionBearer(e.Cfg.Host, now, "topic-x", "bk-x", []string{"read", "write"})
+						}
+						x.Auth.Label = "other-kind"
+					case 2: // look-alike
+						if rt == "session" {
+							x.Auth = acc.SessionBearer(e.Cfg.Host, now, x.ID+"x", "bk-x", []string{"read"})
+						} else {
+							x.Auth = acc.ScopeBearer(e.Cfg.Host, now, []string{"relay:admin ", "Relay:Stats", "relay:stat"})
+						}
+						x.Auth.Label = "lookalike"
+					case 3:
+						x.Auth = acc.Bearer{Kind: "none", Label: "raw:no-header"}
+					}
+					add(e, now, acc.Respell(x, sp))
+				}
+			}
+		}
+	}
 	if a.Replay == "" {
 		// (10) the audience dimension on every endpoint: correctly signed, in-window bearers whose aud is a
 		// look-alike of this API's own audience (extends it, is a proper prefix of it, slash / case variants,
